@@ -127,6 +127,52 @@ def _normalise(tree: ast.AST) -> None:
                 kept = [x for x in b if not isinstance(x, ast.Pass)]
                 if kept and len(kept) != len(b):
                     setattr(node, field, kept)
+    # logging calls have no effect on the IR: drop them (an emptied body keeps a `pass`)
+    def _is_log(st) -> bool:
+        if not (isinstance(st, ast.Expr) and isinstance(st.value, ast.Call) and isinstance(st.value.func, ast.Attribute)):
+            return False
+        f = st.value.func
+        if f.attr not in ("debug", "info", "warning", "error", "exception", "critical", "log"):
+            return False
+        recv = ast.unparse(f.value)
+        return recv in ("logger", "self._logger", "log", "_logger", "logging") or recv.startswith(("logging.getLogger(", "self._logger.", "logger."))
+
+    for node in ast.walk(tree):
+        for field in ("body", "orelse", "finalbody"):
+            b = getattr(node, field, None)
+            if isinstance(b, list) and b and all(isinstance(x, ast.stmt) for x in b) and any(_is_log(x) for x in b):
+                kept = [x for x in b if not _is_log(x)]
+                if not kept and field == "body":
+                    kept = [ast.copy_location(ast.Pass(), b[0])]
+                setattr(node, field, kept)
+    # `if not a: X else: Y` -> `if a: Y else: X` (else present and not an elif); double negations removed
+    for node in ast.walk(tree):
+        if isinstance(node, ast.If):
+            while isinstance(node.test, ast.UnaryOp) and isinstance(node.test.op, ast.Not) and isinstance(node.test.operand, ast.UnaryOp) and isinstance(node.test.operand.op, ast.Not):
+                node.test = node.test.operand.operand
+            if node.orelse and not (len(node.orelse) == 1 and isinstance(node.orelse[0], ast.If)) and isinstance(node.test, ast.UnaryOp) and isinstance(node.test.op, ast.Not):
+                node.test, node.body, node.orelse = node.test.operand, node.orelse, node.body
+    # `if a: ...; return/raise/continue/break  else: Y` -> `if a: ...; return`  followed by Y
+    changed = True
+    while changed:
+        changed = False
+        for node in ast.walk(tree):
+            for field in ("body", "orelse", "finalbody"):
+                b = getattr(node, field, None)
+                if not (isinstance(b, list) and b and all(isinstance(x, ast.stmt) for x in b)):
+                    continue
+                out = []
+                for st in b:
+                    if isinstance(st, ast.If) and st.orelse and st.body and isinstance(st.body[-1], (ast.Return, ast.Raise, ast.Continue, ast.Break)):
+                        tail = st.orelse
+                        st.orelse = []
+                        out.append(st)
+                        out.extend(tail)
+                        changed = True
+                    else:
+                        out.append(st)
+                if changed:
+                    setattr(node, field, out)
     if os.environ.get("VERIF_CANON_CMP", "1") == "1":
         for node in ast.walk(tree):
             if isinstance(node, ast.Compare) and len(node.ops) == 1 and isinstance(node.ops[0], (ast.Eq, ast.NotEq, ast.Is, ast.IsNot)):
